@@ -72,6 +72,7 @@ def read_nifti_image(path: PathUri) -> Tuple[Tensor, Grid]:
                 break
         else:
             realdim = 1
+        channels = data.shape[4:]
     elif intent_code == 1004:
         raise NotImplementedError(
             f"{path} has an intent code of NIFTI_INTENT_GENMATRIX which is not yet implemented"
@@ -81,7 +82,8 @@ def read_nifti_image(path: PathUri) -> Tuple[Tensor, Grid]:
         realdim = ndim
         while realdim > 3 and dim[realdim] == 1:
             realdim -= 1
-    data = np.reshape(data, data.shape[:realdim] + data.shape[5:])
+        channels = data.shape[5:]
+    data = np.reshape(data, data.shape[:realdim] + channels)
     # Reverse order of axes
     data = np.transpose(data, axes=tuple(reversed(range(data.ndim))))
     # Add leading channel dimension
